@@ -142,7 +142,7 @@ class Gen:
                 x = r.random()
                 ver[0] += 1
                 if x < 0.45:
-                    out.append("c.put emb %d %s %s %s" % (m, d, key, hx(b"v%d" % ver[0] + b"z" * r.choice([0, 30, 90]))))
+                    out.append("c.put emb %d %s %s %s" % (m, d, key, hx(b"v%d" % ver[0] + b"z" * r.choice([0, 30, 90])) if r.random() > 0.08 else hx(b"")))
                 elif x < 0.6:
                     out.append("c.del emb %d %s %s" % (m, d, key))
                 else:
